@@ -126,3 +126,143 @@ def judge_reduce(rec, fd, kind, x, arg, result, exc, prop="C07", target_dims=Non
         rec.violation(M, f"{kind}:result-dimension-order", dict(desc, got=list(rs.letters), expected=list(exp)), prop=prop)
         return
     check(rec, kind, np.asarray(rs.values, dtype=float), np.asarray(ref, dtype=float), np.asarray(absr, dtype=float), n, desc, exact, prop)
+
+
+# ---------------------------------------------------------------------------------------------------------------------------------
+# drivers + judges for large arrays used by C04 (storage order) and C05 (assignment): direct calls, vectorised comparison by label
+
+
+def _perm_array(fd, x, order, rng):
+    """the same labelled array stored in another dimension order (values transposed; sometimes a non-contiguous view)"""
+    letters = list(x.dims.letters)
+    axes = [letters.index(l) for l in order]
+    v = np.transpose(x.values, axes)
+    if rng.random() < 0.5:
+        v = np.ascontiguousarray(v)
+    return fd.FlodymArray(dims=x.dims[tuple(order)], values=v.copy() if rng.random() < 0.3 else v)
+
+
+def _aligned(r, letters):
+    """values of array r with axes in the order `letters`"""
+    rl = list(r.dims.letters)
+    return np.transpose(np.asarray(r.values, dtype=float), [rl.index(l) for l in letters])
+
+
+def perm_cases(rec, hub, rng, n_cases, prop="C04"):
+    """each operation on a large array and on the SAME labelled array stored in another dimension order: same entries under the
+    same labels; the result's own order follows the documented rule (left operand / requested order / target)"""
+    from .. import gen
+
+    fd = hub.fd
+    for k in range(n_cases):
+        U = gen.big_universe(fd, rng)
+        la = [str(q) for q in rng.permutation(list("abcd"))[: int(rng.integers(3, 5))]]
+        reg = "dyadic" if rng.random() < 0.6 else "real"
+        vx = gen.big_values(rng, gen.shape_of(U, la), reg)
+        x = fd.FlodymArray(dims=gen.dimset(fd, U, tuple(la)), values=vx)
+        order = [str(q) for q in rng.permutation(la)]
+        while order == la:
+            order = [str(q) for q in rng.permutation(la)]
+        xp = _perm_array(fd, x, order, rng)
+        keep = [str(q) for q in rng.permutation(la)[: int(rng.integers(2, len(la)))]]  # >= 2 kept dimensions, at least one summed away
+        lb = [str(q) for q in rng.permutation(la)[: int(rng.integers(1, len(la)))]]
+        y = fd.FlodymArray(dims=gen.dimset(fd, U, tuple(lb)), values=gen.big_values(rng, gen.shape_of(U, lb), reg))
+        exact = is_dyadic(vx, y.values)
+        scale = float(np.abs(vx).sum()) + 1.0
+        jobs = [
+            ("sum_to", lambda a: a.sum_to(tuple(keep)), keep),
+            ("sum_over", lambda a: a.sum_over(tuple(l for l in la if l not in keep)), None),
+            ("sub smaller", lambda a: a - y, None),
+            ("smaller add", lambda a: y + a, lb),
+            ("maximum", lambda a: a.maximum(y), None),
+            ("mul", lambda a: a * y, None),
+            ("smaller mul", lambda a: y * a, None),
+            ("cumsum", lambda a: a.cumsum(la[0]), None),
+            ("cast smaller to", lambda a: y.cast_to(a.dims), None),
+            ("assign into target", lambda a: _assign(fd, U, keep, a), keep),
+        ]
+        for what, f, fixed_order in jobs:
+            desc = {"op": what, "dims": la, "permuted_storage": order, "shape": list(vx.shape), "kept_or_other": keep if "sum" in what or "assign" in what else lb}
+            rec.event(M, sig=f"perm|{what}|{la}|{order}", cls=f"big|storage-order|{what}", sample=desc)
+            try:
+                r1, r2 = f(x), f(xp)
+            except Exception as e:
+                rec.violation(M, f"{what}:raised", dict(desc, exc=repr(e)[:300]), prop=prop)
+                continue
+            if set(r1.dims.letters) != set(r2.dims.letters):
+                rec.violation(M, f"{what}:result-dimensions-differ-between-storage-orders", dict(desc, a=list(r1.dims.letters), b=list(r2.dims.letters)), prop=prop)
+                continue
+            if fixed_order is not None and (list(r1.dims.letters) != list(fixed_order) or list(r2.dims.letters) != list(fixed_order)):
+                rec.violation(M, f"{what}:result-order-does-not-follow-the-documented-rule", dict(desc, a=list(r1.dims.letters), b=list(r2.dims.letters), expected=list(fixed_order)), prop=prop)
+                continue
+            if tuple(r1.values.shape) != tuple(r1.dims.shape) or tuple(r2.values.shape) != tuple(r2.dims.shape):
+                rec.violation(M, f"{what}:values-shape-differs-from-dims", dict(desc, a=list(r1.values.shape), b=list(r2.values.shape)), prop=prop)
+                continue
+            a_, b_ = np.asarray(r1.values, dtype=float), _aligned(r2, list(r1.dims.letters))
+            if exact and what not in ("mul", "smaller mul"):
+                bad = ~((a_ == b_) | (np.isnan(a_) & np.isnan(b_)))
+            else:
+                bad = ~((np.abs(a_ - b_) <= 1e-9 * np.maximum(np.abs(a_), 1e-6 * scale / max(1, a_.size)) + 1e-12 * scale) | (np.isnan(a_) & np.isnan(b_)))
+            if np.any(bad):
+                idx = tuple(int(i) for i in np.argwhere(bad)[0])
+                rec.violation(M, f"{what}:entries-differ-between-storage-orders", dict(desc, first_bad_index=list(idx), a=float(a_[idx]), b=float(b_[idx]), n_bad=int(bad.sum())), prop=prop)
+
+
+def _assign(fd, U, tl, src):
+    from .. import gen
+
+    t = fd.FlodymArray(dims=gen.dimset(fd, U, tuple(tl)))
+    t[...] = src
+    return t
+
+
+def assign_cases(rec, hub, rng, n_cases, prop="C05"):
+    """target[...] = source and target[key] = source with sources of 10^5 - 10^6 entries: the addressed region receives the source
+    summed by label over the dimensions the region lacks; everything else stays bit-identical; dims and shape stay"""
+    from .. import gen
+
+    fd = hub.fd
+    for k in range(n_cases):
+        U = gen.big_universe(fd, rng)
+        la = [str(q) for q in rng.permutation(list("abcd"))]  # source: all four dimensions in some order
+        if rng.random() < 0.4:
+            la = la[:3]
+        n_t = int(rng.integers(2, len(la) + 1)) if rng.random() < 0.8 else len(la)
+        tl = [str(q) for q in rng.permutation(la)[:n_t]]
+        reg = "dyadic" if rng.random() < 0.6 else "real"
+        vs = gen.relayout(gen.big_values(rng, gen.shape_of(U, la), reg), rng)
+        src = fd.FlodymArray(dims=gen.dimset(fd, U, tuple(la)), values=vs)
+        before = gen.big_values(rng, gen.shape_of(U, tl), "dyadic")
+        # (a) whole-array assignment
+        t = fd.FlodymArray(dims=gen.dimset(fd, U, tuple(tl)), values=before.copy())
+        desc = {"target_dims": tl, "source_dims": la, "source_shape": list(vs.shape)}
+        rec.event(M, sig=f"assign|{tl}|{la}", cls=f"big|assign-whole|{len(la) - len(tl)} summed", sample=desc)
+        try:
+            t[...] = src
+            ref, absr = marginal(np.asarray(vs, dtype=float), la, tl), marginal(np.abs(np.asarray(vs, dtype=float)), la, tl)
+            if list(t.dims.letters) != tl:
+                rec.violation(M, "assign:target-dimensions-changed", dict(desc, got=list(t.dims.letters)), prop=prop)
+            else:
+                check(rec, "assign", np.asarray(t.values, dtype=float), ref, absr, vs.size // max(1, ref.size), desc, is_dyadic(vs), prop)
+        except Exception as e:
+            rec.violation(M, "assign:raised", dict(desc, exc=repr(e)[:300]), prop=prop)
+        # (b) one item of the target's first dimension addressed; the source lacks nothing the region has
+        l0 = tl[0]
+        if len(tl) >= 2:
+            pos = int(rng.integers(0, len(U[l0].items)))
+            item = U[l0].items[pos]
+            t2 = fd.FlodymArray(dims=gen.dimset(fd, U, tuple(tl)), values=before.copy())
+            key = {l0: item} if rng.random() < 0.5 else {U[l0].name: item}
+            desc2 = dict(desc, key={str(k_): str(v_) for k_, v_ in key.items()})
+            rec.event(M, sig=f"assign-item|{tl}|{la}", cls="big|assign-region", sample=desc2)
+            try:
+                t2[key] = src
+                full = marginal(np.asarray(vs, dtype=float), la, tl[1:])  # summed over l0 as well: the region does not have it
+                fabs = marginal(np.abs(np.asarray(vs, dtype=float)), la, tl[1:])
+                exp = before.copy()
+                exp[pos] = full
+                tolr = np.zeros_like(exp)
+                tolr[pos] = fabs
+                check(rec, "assign-region", np.asarray(t2.values, dtype=float), exp, tolr, vs.size // max(1, full.size), desc2, is_dyadic(vs), prop)
+            except Exception as e:
+                rec.violation(M, "assign-region:raised", dict(desc2, exc=repr(e)[:300]), prop=prop)
